@@ -151,6 +151,58 @@ pub fn record(out: &mut dyn Write, r: &mut ChaCha20Rng, n: usize) {
             pairs.push((sc[1].clone(), ab));
         }
     }
+    // multi-scalar multiplication in G1 and G2 (3 and 33 terms): bases a_i*G, scalars s_i
+    for (j, cnt) in [3usize, 33].iter().enumerate() {
+        for grp in ["G1", "G2"] {
+            let aas: Vec<Vec<u8>> = (0..*cnt).map(|t| sc[(j * 5 + t * 3 + 1) % sc.len()].clone()).collect();
+            let sss: Vec<Vec<u8>> = (0..*cnt).map(|t| sc[(j + t * 7 + 2) % sc.len()].clone()).collect();
+            macro_rules! msm {
+                ($G:ident, $go:expr, $gr:expr) => {{
+                    guarded(|| {
+                        use ark_ec::VariableBaseMSM;
+                        let bo: Vec<_> = aas.iter().map(|a| ($go * so(a)).into_affine()).collect();
+                        let br: Vec<_> = aas.iter().map(|a| ($gr * sr(a)).into_affine()).collect();
+                        let ko: Vec<SO> = sss.iter().map(|x| so(x)).collect();
+                        let kr: Vec<SR> = sss.iter().map(|x| sr(x)).collect();
+                        let ro = <<Ours as Pairing>::$G as VariableBaseMSM>::msm(&bo, &ko).map(|p| ser(&p.into_affine(), true)).unwrap_or_default();
+                        let rr = <<Refe as Pairing>::$G as VariableBaseMSM>::msm(&br, &kr).map(|p| ser(&p.into_affine(), true)).unwrap_or_default();
+                        (ro, rr)
+                    })
+                }};
+            }
+            let res = if grp == "G1" { msm!(G1, g1o, g1r) } else { msm!(G2, g2o, g2r) };
+            let ev = json!({"k":"blsmsm","grp":grp,"aa":aas,"ss":sss});
+            emit(out, finish(ev, res.map(|(o, rf)| json!({"ours":o,"ref":rf}))));
+        }
+    }
+    // products of pairings: multi_pairing, multi_miller_loop + final_exponentiation, prepared inputs -- of 0, 1, 2, 3
+    // and 5 pairs (the empty product is 1; a pair with the point at infinity contributes 1)
+    for (j, cnt) in [0usize, 1, 2, 3, 5, 2, 3].iter().enumerate() {
+        let idx: Vec<usize> = (0..*cnt).map(|t| (j * 3 + t * 5 + 1) % sc.len()).collect();
+        let aas: Vec<Vec<u8>> = idx.iter().map(|i| if j == 5 && *i % 2 == 0 { sc[0].clone() } else { sc[*i].clone() }).collect();
+        let bbs: Vec<Vec<u8>> = idx.iter().map(|i| sc[(*i * 7 + 2) % sc.len()].clone()).collect();
+        let res = guarded(|| {
+            let p_o: Vec<<Ours as Pairing>::G1Affine> = aas.iter().map(|a| (g1o * so(a)).into_affine()).collect();
+            let q_o: Vec<<Ours as Pairing>::G2Affine> = bbs.iter().map(|b| (g2o * so(b)).into_affine()).collect();
+            let p_r: Vec<<Refe as Pairing>::G1Affine> = aas.iter().map(|a| (g1r * sr(a)).into_affine()).collect();
+            let q_r: Vec<<Refe as Pairing>::G2Affine> = bbs.iter().map(|b| (g2r * sr(b)).into_affine()).collect();
+            let mo = Ours::multi_pairing(p_o.clone(), q_o.clone());
+            let mr = Refe::multi_pairing(p_r.clone(), q_r.clone());
+            // the same through the two halves, with explicitly prepared inputs
+            let prep_p: Vec<<Ours as Pairing>::G1Prepared> = p_o.iter().map(|x| (*x).into()).collect();
+            let prep_q: Vec<<Ours as Pairing>::G2Prepared> = q_o.iter().map(|x| (*x).into()).collect();
+            let ml = Ours::multi_miller_loop(prep_p, prep_q);
+            let fe = Ours::final_exponentiation(ml).map(|x| ser(&x.0, true)).unwrap_or_default();
+            // and as the product of the single pairings
+            let mut prod = <Ours as Pairing>::TargetField::ONE;
+            for (x, y) in p_o.iter().zip(q_o.iter()) {
+                prod *= Ours::pairing(*x, *y).0;
+            }
+            (ser(&mo.0, true), ser(&mr.0, true), fe, ser(&prod, true))
+        });
+        let ev = json!({"k":"blsmpair","aa":aas,"bb":bbs});
+        emit(out, finish(ev, res.map(|(o, rf, fe, prod)| json!({"ours":o,"ref":rf,"ours_ml_fe":fe,"ours_prod":prod}))));
+    }
     for (i, (a, b)) in pairs.iter().enumerate() {
         if i % 20 == 19 {
             emit(out, json!({"k":"reset","build":BUILD}));
